@@ -270,6 +270,17 @@ impl Exec {
         }
     }
 
+    /// Makes every live node ready except the given ones (the nodes that run product code: a spurious poll of
+    /// those would hide a wake-up the product lost).
+    pub fn wake_all_except(&self, skip: &[NodeId]) {
+        let mut ready = self.shared.ready.lock().unwrap();
+        for (id, n) in self.nodes.iter().enumerate() {
+            if n.fut.is_some() && !skip.contains(&id) {
+                ready.insert(id);
+            }
+        }
+    }
+
     /// Performs one step; false if nothing was ready.
     pub fn step(&mut self) -> bool {
         let id = {
